@@ -177,5 +177,6 @@ func Spec_recipientOf(r *Recipient, a *Addressing) bool { return r != nil && r.a
 func Spec_originOf(o *Origin, a *Addressing) bool { return o != nil && o.addrPolicy == a }
 
 // Spec_shouldAccept / Spec_shouldStore: the documented accept / store rule for a recipient.
+//@ pred Spec_recipientOK(r *Recipient) bool = r != nil && r.addrPolicy != nil && r.addrPolicy.Config != nil
 //@ pred Spec_shouldAccept(r *Recipient) bool = spec_shouldAccept(r)
 //@ pred Spec_shouldStore(r *Recipient) bool = spec_shouldStore(r)
